@@ -70,7 +70,7 @@ func runHistory(r *vf.Run, calls []hcall, listing bool, capacity int, tag string
 }
 
 func C06(r *vf.Run) {
-	r.Rule = "generated emitter call histories (1-400 calls: instructions, data, labels, all 8 label-taking methods, forward/backward/multiple/missing references, duplicate-label attempts) with padding chosen so that branch displacements -129,-128,-127,-2,0,+1,+126,+127,+128 occur; six base-address classes; a shadow model predicts the Finalize outcome and every byte; a cell is (reference kinds, outcome, boundary distances hit, base class)"
+	r.Rule = "generated emitter call histories (1-400 calls: instructions, data, labels, all 8 label-taking methods, forward/backward/multiple/missing references, duplicate-label attempts) with padding chosen so that branch displacements -129,-128,-127,-2,0,+1,+126,+127,+128 occur, plus programs spanning almost a whole bank with references around the +-32 KiB and +-64 KiB marks; six base-address classes; a shadow model predicts the Finalize outcome and every byte; a cell is (reference kinds, outcome, boundary distances hit, base class)"
 	r.Assume = []string{"programs stay within one bank and SetBase is called at most once before the first emission (as quantified)"}
 	if !r.Phase("histories") {
 		return
@@ -80,9 +80,18 @@ func C06(r *vf.Run) {
 		g := r.Rand("hist").Fork(uint64(ci))
 		cells := map[string]int64{}
 		for k := 0; k < 250 && !r.TooMany(); k++ {
-			calls, base, dist := genHistory(g, histOpts{maxCalls: 400, listing: g.Intn(4) == 0, withRefs: true, withDup: true})
 			listing := g.Intn(4) == 0
-			e, sh, buf, ok := runHistory(r, calls, listing, 8192, "c06")
+			var calls []hcall
+			var base string
+			var dist map[string]bool
+			capacity := 8192
+			if k%10 == 9 { // programs spanning almost the whole bank
+				calls, base, dist = genFarHistory(g, listing)
+				capacity = 0x10100
+			} else {
+				calls, base, dist = genHistory(g, histOpts{maxCalls: 400, listing: listing, withRefs: true, withDup: true})
+			}
+			e, sh, buf, ok := runHistory(r, calls, listing, capacity, "c06")
 			r.Eval(1)
 			if !ok {
 				continue
@@ -123,8 +132,10 @@ func C06(r *vf.Run) {
 			}
 			cells[fmt.Sprintf("%s:%s:%s", kinds, outcome, base)]++
 			for d := range dist {
-				switch d {
-				case "back-129", "back-128", "back-127", "back-2", "back-3", "fwd0", "fwd1", "fwd126", "fwd127", "fwd128":
+				switch {
+				case d == "back-129", d == "back-128", d == "back-127", d == "back-2", d == "back-3", d == "fwd0", d == "fwd1", d == "fwd126", d == "fwd127", d == "fwd128":
+					cells["dist:"+d+":"+outcome]++
+				case strings.HasPrefix(d, "far"):
 					cells["dist:"+d+":"+outcome]++
 				}
 			}
@@ -196,7 +207,7 @@ func C06(r *vf.Run) {
 		}
 		r.MergeCells(cells)
 	})
-	for _, d := range []string{"back-129", "back-128", "back-127", "back-2", "fwd0", "fwd1", "fwd126", "fwd127", "fwd128", ":fail:", ":ok:", "abs16"} {
+	for _, d := range []string{"back-129", "back-128", "back-127", "back-2", "fwd0", "fwd1", "fwd126", "fwd127", "fwd128", ":fail:", ":ok:", "abs16", "dist:farfwdf", "dist:farbackf", "dist:farfwd7", "dist:farback8", "dist:farjmp"} {
 		r.RequireSub(d)
 	}
 }
